@@ -66,6 +66,12 @@ CLAIMED.update({
              'queries rendered in JS syntax (rows, error class/record/field, pulled records, writer calls, warnings), with the caller arrays snapshotted before/after and output rows checked not to alias input rows.',
         note='Partial by nature: the JS engine itself is not modelled; it is tied to a proved reference (translation-validation-like). Strings restricted to BMP; only expressions that mean the same in both languages.',
         ref='DESIGN.md section 7, C19'),
+    'C07': dict(
+        text='C07_header_width (+ DISTINCT COUNT, EXCEPT variants): whenever a header is produced it has as many names as every record has fields, for every list of column infos; C07_names (alias / source column / identifier / colK by output position), '
+             'no header without alias, star+alias without header rejected. The real engine is tied by select lists generated from item kinds (nested brackets, commas in calls and literals, AS/as) x header x join x DISTINCT/COUNT/TOP/GROUP BY/EXCEPT, '
+             'observed through query_table, query_csv (whose writer enforces the width) and pandas.',
+        note='Partial: how an item TEXT is classified into its kind is Python ast / the JS span parser — tied by the correspondence, not modelled. Hypothesis RectangularSources (records as wide as their headers).',
+        ref='DESIGN.md section 7, C07'),
     'C10': dict(
         text='Line level: C10_line_roundtrip_quoted (every good delimiter, single- or multi-character; no field condition for one-character delimiters), simple and monocolumn round trips; '
              'file level: C10_file_lines_roundtrip for LF/CRLF/CR; lossy output warns (C10_lossy_simple_warns, C10_none_sets_flag); C10_overlap_counterexample shows why multi-character '
